@@ -172,10 +172,10 @@ func Build(s *Spec) (*World, error) {
 		}
 	}
 	for _, l := range s.TGTLives {
-		w.Realms[0].PushLife(life(l))
+		w.Realms[0].PushTGTLife(life(l))
 	}
 	for _, l := range s.SvcLives {
-		w.Realms[s.Hops].PushLife(life(l))
+		w.Realms[s.Hops].PushSvcLife(life(l))
 	}
 	names := []string{}
 	for _, e := range s.ETypes {
